@@ -86,7 +86,7 @@ def attr_trees(tier):
         return _CACHE[key]
     out = []
     ids = (None, 'i')
-    classes = (None, 'c', ['c', 'd'], 'c  d', 'C')
+    classes = (None, 'c', ['c', 'd'], 'c  d', 'C', 'dc cd')     # the last: tokens that merely contain the names selected for
 
     def attrs(t, i, c):
         a = []
@@ -254,7 +254,7 @@ LAYERS = {
 
 def shards(tier, seed):
     out = []
-    per = {'S': 64, 'F': 32, 'A': 8, 'PS': 16, 'PA': 8} if tier == 'quick' else {'S': 256, 'F': 128, 'A': 16, 'PS': 48, 'PA': 16}
+    per = {'S': 64, 'F': 32, 'A': 8, 'PS': 16, 'PA': 8, 'N': 8} if tier == 'quick' else {'S': 256, 'F': 128, 'A': 16, 'PS': 48, 'PA': 16, 'N': 16}
     for layer, n in per.items():
         for i in range(n):
             out.append((layer, tier, i, n))
@@ -347,10 +347,68 @@ def record_failure(res, sv, layer, forest, kind, lst, tindex, r):
              sig, rr.get('detail', ''))
 
 
+def ns_selectors(tier):
+    """Functional pseudo-classes with lists of tag-less items under an outer compound that is not tied to the default namespace, over the
+    alphabet of the mixed-namespace documents of C12 (elements e/f, class c, attribute k)."""
+    cls, hk, zz = S.cx(S.cp(None, ('class', 'c'))), S.cx(S.cp(None, ('attr', None, 'k', None, None, None))), S.cx(S.cp(None, ('class', 'zz')))
+    te = S.cx(S.cp(S.T('e')))
+    out = []
+    lists = [L for n_ in (2, 3) for L in itertools.permutations((cls, hk, zz, te), n_)]
+    for outer in (('*', '*'), ('x', '*'), ('*', 'e'), (None, 'e'), None):
+        for L in lists:
+            for fn in ('is', 'not', 'where'):
+                out.append((S.cx(S.cp(outer, ('fn', fn, L))),))
+            out.append((S.cx(S.cp(outer, ('has', tuple(('>', x) for x in L)))),))
+            out.append((S.cx(S.cp(outer, ('fn', 'not', (S.cx(S.cp(None, ('fn', 'is', L))),)))),))
+    for L in lists:
+        out.append(L)
+    return out if tier != 'quick' else out[::2]
+
+
+def run_ns(sv, tier, i, n):
+    """Layer N: the same question with a namespaces= map that declares a default namespace, on documents whose elements are spread over
+    several namespaces (an item of a nested list carries no implied default-namespace universal; a top-level item does)."""
+    from . import c12
+    res = shard.Result()
+    docs = c12.built('quick')
+    sels = ns_selectors(tier)
+    maps = {k: c12.MAPS[k] for k in ('default-U1', 'default-U1+x->U2', 'x->U1')}
+    if i == 0:
+        res.count('documents_N', len(docs))
+        res.count('selectors_N', len(sels))
+    for si in range(i, len(sels), n):
+        lst = sels[si]
+        text = S.render(lst)
+        fails = 0
+        for name, src, soup in docs:
+            for mname, m in maps.items():
+                r = _sel.run_case(sv, soup, lst, namespaces=m, text=text)
+                res.evaluations += 1
+                st = r['status']
+                if st == 'ok':
+                    res.outcome('agree')
+                    if 0 < len(r['want']) < len(T.elements(soup)):
+                        res.nontrivial += 1
+                elif st == 'unspecified':
+                    res.unspecified += 1
+                else:
+                    res.outcome(st)
+                    fails += 1
+                    if fails <= 2:
+                        res.fail({'layer': 'N', 'src': src, 'map': mname, 'h5': False, 'selector': lst, 'text': text},
+                                 {'kind': st, 'direction': r.get('direction', r.get('exc', '')), 'atoms': '+'.join(sorted(_sel.atoms_of(lst))), 'tree': 'mixed-namespaces',
+                                  'doc': 'xml', 'map': mname}, f'[{name}, namespaces={m!r}] ' + r.get('detail', ''))
+                    else:
+                        res.failure_count += 1
+    return res
+
+
 def run_shard(desc):
     from .. import common
     sv = common.bind()
     layer, tier, i, n = desc
+    if layer == 'N':
+        return run_ns(sv, tier, i, n)
     res = shard.Result()
     docs, skipped = docs_for(layer, tier)
     res.count('documents_' + layer, len(docs) if i == 0 else 0)
@@ -408,6 +466,9 @@ def run_shard(desc):
 def replay(case):
     from .. import common
     sv = common.bind()
+    if case.get('layer') == 'N':
+        from . import c12
+        return c12.replay(case)
     forest = _sel.tup(case['forest'])
     lst = _sel.tup(case['selector'])
     soup = _sel.build(forest, case['kind'])
